@@ -1142,7 +1142,11 @@ func (l *channelLink) resolveFwdPkgs(ctx context.Context) error {
 
 	// If any of our reprocessing steps require an update to the commitment
 	// txn, we initiate a state transition to capture all relevant changes.
-	if l.channel.NumPendingUpdates(lntypes.Local, lntypes.Remote) > 0 {
+	// This also covers updates of the remote party that were locked in on
+	// our commitment before the restart, but which we never got to sign
+	// for: nothing will be retransmitted for those, yet we still owe the
+	// remote party a commitment that includes them.
+	if l.channel.OweCommitment() {
 		return l.updateCommitTx(ctx)
 	}
 
